@@ -132,6 +132,26 @@ pub fn check_ok_result(
         }
         ext < 1e-5
     };
+    // clusters of near-duplicate points: two stored vertices closer than 1e-8 of the extent
+    let near_duplicates = {
+        let pts = snap.points();
+        let mut ext = 0.0f64;
+        for j in 0..d {
+            let lo = pts.iter().map(|p| p[j]).fold(f64::INFINITY, f64::min);
+            let hi = pts.iter().map(|p| p[j]).fold(f64::NEG_INFINITY, f64::max);
+            ext = ext.max(hi - lo);
+        }
+        let mut close = false;
+        for a in 0..pts.len() {
+            for b in a + 1..pts.len() {
+                let dd: f64 = pts[a].iter().zip(&pts[b]).map(|(x, y)| (x - y) * (x - y)).sum();
+                if dd.sqrt() < 1e-8 * ext {
+                    close = true;
+                }
+            }
+        }
+        close
+    };
     let mut problems: Vec<(String, String, Vec<(&'static str, Value)>)> = cert
         .problems()
         .into_iter()
@@ -142,6 +162,7 @@ pub fn check_ok_result(
                     ("tiny_facet", Value::from(cert.convex_min_rel_facet < 1e-4)),
                     ("coplanar_input", Value::from(has_cohyperplanar_subset(input))),
                     ("small_scale", Value::from(small_scale)),
+                    ("near_duplicates", Value::from(near_duplicates)),
                 ],
                 // overlapping / missing cover goes with a non-convex boundary: same discriminators
                 "coverage" => vec![
@@ -345,6 +366,13 @@ fn finish<K: Kern<D>, U: DataVal, const D: usize>(case: &Case, entry_name: &str,
                         .fact("kernel", K::NAME)
                         .fact("entry", entry_name)
                         .fact("retry", (b.effective.retry % 6) as u64)
+                        // does the shuffled-retry driver (the only place that verifies the bulk result
+                        // globally) run for this call?  DebugOnlyShuffled is active only with debug assertions
+                        .fact("retry_active", match b.effective.retry % 6 {
+                            0 => false,
+                            1..=3 => true,
+                            _ => cfg!(debug_assertions),
+                        })
                         .fact("guarantee", (b.effective.guarantee % 3) as u64);
                     for (k, val) in facts {
                         v = v.fact(k, val);
